@@ -115,18 +115,27 @@ def run(ctx, chk):
                 nxt = values[stored[2]]
             if nxt is None:
                 nxt = applied
-            n_measured = measured or bool(data_fields & set(i['stores']))
-            nflags = dict(flags)
+            # a measurement exists once a data field has been assigned *from the message*: a store of anything else (a
+            # constant, a place-holder filled in on the way out, the result of a call on the field itself) leaves the record
+            # without a measurement, whatever the field now holds
+            def from_message(v_):
+                return i['payload'] is not None and arith.mentions(v_, i['payload'])
+            n_measured = measured or any(from_message(i['stores'][f_]) for f_ in data_fields & set(i['stores']))
+            nflag_alts = [dict(flags)]
             for name in flags0:
                 if name in i['stores']:
                     v = i['stores'][name]
                     if psi.is_int_const(v):
-                        nflags[name] = v[1]
+                        vals_ = [v[1]]
                     elif v[0] == 'agg' and v[2] in ('None', 'Some'):
-                        nflags[name] = v[2]
+                        vals_ = [v[2]]
                     else:
-                        nflags[name] = nflags[name]   # unknown value: keep (conservative for the gate)
-            ns = (nxt, n_measured, tuple(sorted(nflags.items())))
+                        # a value the abstraction cannot name (the field was handed to a call: `get_or_insert`, `take`,
+                        # `replace`): afterwards it may hold either
+                        vals_ = [0, 1] if isinstance(flags0[name], int) else ['None', 'Some']
+                    nflag_alts = [dict(a_, **{name: x_}) for a_ in nflag_alts for x_ in vals_]
+            nss = [(nxt, n_measured, tuple(sorted(a_.items()))) for a_ in nflag_alts]
+            ns = nss[0]
             label = '%s[%s]' % (i['msg_name'], applied)
             for ceb in i['records']:
                 form = m.published(chk, i, ceb)[:2]
@@ -142,9 +151,10 @@ def run(ctx, chk):
                     key = 'placeholder-published:%s:%s' % (applied, pub)
                     if key not in violations:
                         violations[key] = (i, seen[st] + (label,), st, pub, ceb)
-            if ns not in seen:
-                seen[ns] = seen[st] + (label,)
-                work.append(ns)
+            for ns in nss:
+                if ns not in seen:
+                    seen[ns] = seen[st] + (label,)
+                    work.append(ns)
     chk.analysed['call_sites'] += n_trans
     for key, (i, trace, st, pub, ceb) in sorted(violations.items()):
         chk.ob('C09.Q1', key, False, i['path'].where[2],
